@@ -189,6 +189,14 @@ package web
 //@   site (*encoding/json.Encoder).Encode requires[C15] verified: #validatedOK && #status == 0 && dyn(arg1, jwt.Claims) == info
 //@   nopanic[C10]
 
+// the authentication middleware in front of the tunnel handler may panic on a hostile Authorization header
+// (gokrb5 slices tickets without checking their length): the panic does not leave this handler
+//@ func RecoverAuthentication$1
+//@   requires[C10] wf: next != nil && *next != nil && challenge != nil
+//@   assigns *
+//@   site http.Handler.ServeHTTP maypanic[C10]
+//@   nopanic[C10]
+
 //@ func TransposeSPNEGOContext$1
 //@   requires[C10] wf: next != nil && *next != nil && reqHasId(r)
 //@   assigns *
